@@ -15,6 +15,29 @@ pub struct Written {
     pub fields: BTreeMap<String, (FieldValue, u64)>,
     /// name → nested key paths that some upgrade *after this document was written* removed
     pub retired: BTreeMap<String, BTreeSet<String>>,
+    /// fields in which, after this document was written, an untyped `Map({})` position became an
+    /// explicitly keyed map
+    pub became_keyed: BTreeSet<String>,
+}
+
+/// Does `new` declare keys at a position where `old` was the untyped map `Map({})`?
+pub fn untyped_became_keyed(new: &FieldType, old: &FieldType) -> bool {
+    use FieldType as T;
+    match (new, old) {
+        (T::Option(n), T::Option(o)) => untyped_became_keyed(n, o),
+        (T::Array(n), T::Array(o)) => n.iter().zip(o).any(|(a, b)| untyped_became_keyed(a, b)),
+        (T::Map(n), T::Map(o)) => {
+            if o.is_empty() {
+                return !n.is_empty();
+            }
+            match (crate::r#gen::is_wildcard(n), crate::r#gen::is_wildcard(o)) {
+                (Some((_, a)), Some((_, b))) => untyped_became_keyed(a, b),
+                (None, None) => n.iter().any(|(k, a)| o.get(k).is_some_and(|b| untyped_became_keyed(a, b))),
+                _ => false,
+            }
+        }
+        _ => false,
+    }
 }
 
 /// Every explicitly keyed map key of a type, as a path (`?` option, `[]` array element, `[i]`
@@ -345,6 +368,11 @@ impl State {
                                 let (mut before, mut after) = (BTreeSet::new(), BTreeSet::new());
                                 key_paths(ot, "", &mut before);
                                 key_paths(t, "", &mut after);
+                                if untyped_became_keyed(t, ot) {
+                                    for w in &mut self.written {
+                                        w.became_keyed.insert(n.clone());
+                                    }
+                                }
                                 let gone: Vec<String> = before.difference(&after).cloned().collect();
                                 if !gone.is_empty() {
                                     for w in &mut self.written {
@@ -407,7 +435,7 @@ impl State {
                 r.nontrivial = true;
                 r.hits.push(format!("{op}:ok"));
                 // nothing invalid gets in: every stored field conforms, every required field is there
-                let mut w = Written { fields: BTreeMap::new(), retired: BTreeMap::new() };
+                let mut w = Written { fields: BTreeMap::new(), retired: BTreeMap::new(), became_keyed: BTreeSet::new() };
                 for f in schema.iter() {
                     match doc.get_field(f.name()) {
                         Some(v) => {
@@ -461,7 +489,13 @@ impl State {
                         });
                         if !incomplete {
                             r.failures.push((
-                                if readded { "nested-key-readded:old-document-unreadable".into() } else { "old-document-unreadable".into() },
+                                if readded {
+                                    "nested-key-readded:old-document-unreadable".into()
+                                } else if schema.iter().any(|f| w.became_keyed.contains(f.name())) {
+                                    "untyped-map-became-keyed:old-document-unreadable".into()
+                                } else {
+                                    "old-document-unreadable".into()
+                                },
                                 "a document accepted under an earlier (or the same) schema is rejected on read".into(),
                                 "readable".into(),
                                 format!("{e}"),
